@@ -91,7 +91,11 @@ def generate_subgraphs(graph: IterationNode) -> list[IterationNode]:
             all_subgraphs.update(new_graphs)
             old_subgraphs = new_graphs
 
-    return list(all_subgraphs.values())
+    # Emit subgraphs with more remaining sparse tensors first. A subgraph must be visited before
+    # any subgraph that can be derived from it (in particular, the subgraph with no sparse tensors
+    # must be last), but exhausting a tensor that is multiplied by others can jump straight to a
+    # much simpler subgraph before its siblings have been discovered.
+    return sorted(all_subgraphs.values(), key=lambda g: -len(g.compressed_dimensions()))
 
 
 @to_ir_iteration_graph.register(IterationNode)
